@@ -18,6 +18,10 @@ def write_fastq(path, reads, quals, gz=False):
 def simulate(rng, k, minq):
     """Reads from a small genome: both orientations, errors, N, qualities hitting minq-1, minq, minq+1."""
     g = gen.rand_seq(rng, rng.randint(max(150, 3 * k), max(220, 5 * k)))
+    # windows whose arms are their own reverse complement: forward and reverse reads of them must be counted together
+    for _ in range(2):
+        at = rng.randint(0, len(g) - k)
+        g = g[:at] + gen.selfrc_window(rng, k) + g[at + k:]
     cov = rng.randint(3, 10)
     rlen_lo, rlen_hi = k, max(k + 1, min(3 * k, 150))
     nreads = max(4, (cov * len(g)) // ((rlen_lo + rlen_hi) // 2))
